@@ -66,7 +66,7 @@ pub fn main(args: &Args) -> i32 {
         }
         gate.disarm_all();
         session_probe(&mut rep);
-        if shard == 0 { rtr_timing_probe(&mut rep); }
+        if shard == 0 { rtr_timing_probe(&mut rep); initial_probe(&mut rep); }
     }
     for (idx, b) in behaviours.iter().enumerate() {
         if idx % nshards != shard { continue }
@@ -664,6 +664,43 @@ fn rtr_timing_probe(rep: &mut Report) {
     if min == 0 {
         rep.add_note("C15", "rtr_refresh_hint_zero_seen", 1);
         rep.divergence("C15", format!("observation (not a listed property): End of Data announced a Refresh Interval of 0 s ({} of {} answers; RFC 8210 allows 1..86400):                                        RtrTiming.tla RefreshHintInRange, variant as_coded", hints.iter().filter(|h| h.1 == 0).count(), hints.len()));
+    }
+}
+
+/// C15, "before the first validation completes no data is served": a fresh server, nothing installed; also while
+/// the first run is in progress (mark_update_start done, nothing installed).  Every payload endpoint must answer
+/// 503, versioned delta requests with the server's own session included; RTR must answer "no data available".
+fn initial_probe(rep: &mut Report) {
+    let fx = Fixture::start(|c| { c.history_size = 10; });
+    let port = fx.http_port;
+    for state in ["nothing-installed", "first-run-in-progress"] {
+        if state == "first-run-in-progress" { fx.history.mark_update_start(); }
+        let own = http_get(port, "/json-delta/notify", &[]).ok().and_then(|r| serde_json::from_slice::<Value>(&r.body).ok())
+            .and_then(|v| v["session"].as_u64().or_else(|| v["session"].as_str().and_then(|s| s.parse().ok())));
+        let mut paths: Vec<String> = ["/json", "/csv", "/jsonext", "/rpsl", "/slurm", "/json-delta", "/json-delta?session=1&serial=0"]
+            .iter().map(|s| s.to_string()).collect();
+        if let Some(sess) = own {
+            paths.push(format!("/json-delta?session={sess}&serial=0"));
+            paths.push(format!("/json-delta?session={sess}&serial=1"));
+        }
+        for path in paths {
+            for method in ["GET", "HEAD"] {
+                rep.eval("C15");
+                match http_request(port, method, &path, &[], None, Duration::from_secs(10)) {
+                    Ok(r) if r.status == 503 => rep.nontrivial("C15", format!("initial|{state}|{method}|{path}")),
+                    Ok(r) => rep.violation("C15", &format!("data-before-first-run/{}", path.split('?').next().unwrap_or("").trim_start_matches('/')),
+                        format!("{method} {path} answered {} although no validation run has completed ({state})", r.status),
+                        json!({"state": state, "method": method, "path": path}), json!({"status": r.status, "body": String::from_utf8_lossy(&r.body).chars().take(200).collect::<String>()})),
+                    Err(e) => rep.divergence("C15", format!("initial probe {method} {path}: {e}")),
+                }
+            }
+        }
+        rep.eval("C15");
+        let a = rtr_query(fx.rtr_port, None, Duration::from_secs(5));
+        if a.kind == "cache-response" {
+            rep.violation("C15", "data-before-first-run/rtr", format!("RTR reset query answered with a cache response although no validation run has completed ({state})"),
+                json!({"state": state}), json!({"items": a.items.len()}));
+        } else { rep.nontrivial("C15", format!("initial|{state}|rtr|{}", a.kind)); }
     }
 }
 
